@@ -254,38 +254,46 @@ func scenarioC08Random(c *Ctx, r *Rng, idx int) {
 		_, order := w.delivered()
 		c.Cov.Fail(Failure{Kind: "violated", Clause: clause, Signature: sig, Line: line(), Reply: fmt.Sprintf("%s; reporter log %v", why, order)})
 	}
-	winner := -1
-	nonNilOrFull := 0
 	for i, cr := range res {
 		if !cr.returned {
 			fail("close-returns", fmt.Sprintf("Close call %d did not return", i))
 			return
 		}
-		// the winner is the call after whose return the reporter had been flushed for the last time
-		if n := len(cr.order); n > 0 && (cr.order[n-1] == "close" || (!closable && cr.order[n-1] == "flush")) {
-			if winner < 0 || cr.logLen > res[winner].logLen {
-				winner = i
-			}
-			nonNilOrFull++
-		}
 	}
 	finalSums, finalOrder := w.delivered()
 	finalLen := len(w.log().Snapshot())
-	if winner < 0 {
-		fail("flush-then-close", "no Close call returned with the reporter flushed (and closed) as its last calls")
-		return
-	}
-	wr := res[winner]
-	if wr.err != repErr {
-		fail("close-returns-reporter-error", fmt.Sprintf("the reporter's Close returned %v, the winning scope Close returned %v", repErr, wr.err))
-		return
-	}
+	// the barrier holds for EVERY caller ("any number of concurrent Close callers"): when any Close call returns, the
+	// shutdown is complete -- everything recorded before Close was called has been delivered and flushed, the reporter
+	// is closed, and nothing reaches the reporter afterwards.  Exactly one call (the one that closed the reporter)
+	// returns the reporter's error, the others nil.
+	winner, withErr := -1, 0
 	for i, cr := range res {
-		if i != winner && cr.err != nil {
-			fail("close-idempotent", fmt.Sprintf("a Close call that did not close the reporter returned %v", cr.err))
+		n := len(cr.order)
+		if !(n > 0 && (cr.order[n-1] == "close" || (!closable && cr.order[n-1] == "flush"))) {
+			fail("flush-then-close", fmt.Sprintf("Close call %d returned before the reporter had been flushed (and closed): %v", i, cr.order))
 			return
 		}
+		if cr.logLen != finalLen {
+			fail("every-close-call-returns-after-the-shutdown", fmt.Sprintf("Close call %d returned while the shutdown was still under way: %d reporter call(s) followed its return: %v", i, finalLen-cr.logLen, finalOrder[len(cr.order):]))
+			return
+		}
+		if cr.err != nil {
+			if cr.err != repErr {
+				fail("close-returns-reporter-error", fmt.Sprintf("Close call %d returned %v, the reporter's Close returned %v", i, cr.err, repErr))
+				return
+			}
+			withErr++
+			winner = i
+		}
 	}
+	if repErr != nil && withErr != 1 {
+		fail("close-returns-reporter-error", fmt.Sprintf("the reporter's Close returned %v; %d of the %d Close calls returned it (exactly one must)", repErr, withErr, len(res)))
+		return
+	}
+	if winner < 0 {
+		winner = 0
+	}
+	wr := res[winner]
 	for _, ct := range ctrs {
 		n := ct.full
 		if wr.sums[n] < pre[n] || wr.sums[n] > pre[n]+post[n] {
